@@ -26,7 +26,26 @@ pub fn check_typed<T: Codec>(ctx: &mut Ctx, v: &T) {
             return;
         }
         Ok(Err(e)) => {
-            ctx.violation(format!("{}/{}/to_json-fails", P, name), format!("{} : {}", short(&format!("{:?}", v), 200), short(&e, 200)));
+            // the JSON form of metadata is the schema conversion, which the property makes conditional
+            // ("whenever the first conversion succeeds"): a metadatum integer below -2^63 has no JSON
+            // number; refusing it is the sanctioned outcome, for this reason only
+            let bytes = v.enc();
+            let beyond = crate::refcbor::parse(&bytes).map(|n| {
+                let mut found = false;
+                n.walk(&mut |x| {
+                    if let crate::refcbor::Kind::NInt(a) = &x.kind {
+                        if *a > i64::MAX as u64 {
+                            found = true;
+                        }
+                    }
+                });
+                found
+            }).unwrap_or(false);
+            if beyond && e.contains("out of range integral type conversion") {
+                ctx.hit("to_json-refuses-metadatum-int-below-i64-min");
+            } else {
+                ctx.violation(format!("{}/{}/to_json-fails", P, name), format!("{} : {}", short(&format!("{:?}", v), 200), short(&e, 200)));
+            }
             return;
         }
         Ok(Ok(s)) => s,
